@@ -55,11 +55,29 @@ func (s *Session) localLookup(fr *Frame, st *State, at *ssa.BasicBlock) func(str
 }
 
 func (s *Session) localLookupAt(fr *Frame, st *State, at *ssa.BasicBlock, atIdx int) func(string) (Val, bool) {
+	return s.localLookupFiltered(fr, st, at, atIdx, false)
+}
+
+// localCellLookupAt resolves only variables that live in a memory cell (address taken or reassigned parameters).
+func (s *Session) localCellLookupAt(fr *Frame, st *State, at *ssa.BasicBlock, atIdx int) func(string) (Val, bool) {
+	return s.localLookupFiltered(fr, st, at, atIdx, true)
+}
+
+func (s *Session) localLookupFiltered(fr *Frame, st *State, at *ssa.BasicBlock, atIdx int, cellsOnly bool) func(string) (Val, bool) {
 	if fr.locals == nil {
 		fr.locals = localIndex(fr.fn)
 	}
 	return func(name string) (Val, bool) {
 		defs := fr.locals[name]
+		if cellsOnly {
+			var cells []localDef
+			for _, d := range defs {
+				if d.isAddr {
+					cells = append(cells, d)
+				}
+			}
+			defs = cells
+		}
 		var best *localDef
 		bestKey := [2]int{-1, -1}
 		for i := range defs {
@@ -123,6 +141,7 @@ func (s *Session) evalClauseMode(fr *Frame, c Clause, st *State, at *ssa.BasicBl
 	se := &SpecEnv{sess: s, pkg: fr.fn.Pkg.Pkg, vars: s.frameEnv(fr), st: st, old: fr.old, fr: fr}
 	if at != nil {
 		se.lookup = s.localLookupAt(fr, st, at, atIdx)
+		se.lookupCell = s.localCellLookupAt(fr, st, at, atIdx)
 		if fr.loopEntry != nil {
 			se.pre = fr.loopEntry[at]
 		}
